@@ -18,7 +18,7 @@ PROD_S = 0x1000000
 T = 4
 
 MODES = ["none", "e", "d", "v", "V", "h", "e+d", "v+h", "cluster-en", "cluster-edv", "long-encode", "long-decode"]
-INS = ["absent", "file", "missing", "path123", "path300", "valid", "tampered", "empty"]
+INS = ["absent", "file", "missing", "path123", "path300", "valid", "tampered", "empty", "directory", "devnull", "fifo"]
 OUTS = ["absent", "writable", "unwritable"]
 KEYS = ["absent", "right", "wrong", "len23", "nopad", "badsym", "len25", "onepad"]
 CMODES = ["absent", "0", "1", "2", "3", "4", "5", "-1", "256", "abc", "127"]
@@ -79,6 +79,15 @@ def make_argv(vec, fx, rundir):
             os.makedirs(deep, exist_ok=True)
             src = os.path.join(deep, "z" * (300 - len(deep) - 1))
             open(src, "wb").write(fx.plain)
+        elif inn == "directory":
+            src = os.path.join(rundir, "a-directory")
+            os.makedirs(src, exist_ok=True)
+        elif inn == "devnull":
+            src = "/dev/null"
+        elif inn == "fifo":  # a named pipe that a writer fills with the plaintext and closes
+            src = os.path.join(rundir, "in.fifo")
+            os.mkfifo(src)
+            info["fifo_data"] = fx.plain
         else:
             src = {"file": fx.f, "missing": os.path.join(fx.root, "no-such-file"), "valid": fx.valid, "tampered": fx.tampered, "empty": fx.empty}[inn]
         # work on a private copy so that default output names land in the run directory
@@ -124,6 +133,8 @@ def well_formed(vec):
         return True
     if inn in ("absent", "missing"):
         return False
+    if inn in ("directory", "devnull", "fifo"):
+        return True
     m = {"cluster-en": "e", "long-encode": "e", "long-decode": "d"}.get(mode, mode)
     if cm in ("5", "127") or hm == "3":
         return False  # out-of-range mode numbers are rejected for every operation
@@ -175,11 +186,32 @@ def run_vector(exe, reftool, fx, vec, idx, workroot):
         env = dict(os.environ)
         env["ASAN_OPTIONS"] = "detect_leaks=0:new_delete_type_mismatch=0:alloc_dealloc_mismatch=0:exitcode=77:abort_on_error=0:allocator_may_return_null=1"
         default_out = (info["in"] + ".wenc") if info["in"] else None
+        feeder = None
+        if info.get("fifo_data") is not None:
+            import threading
+
+            def feed():
+                try:
+                    fd = os.open(info["in"], os.O_WRONLY)
+                    os.write(fd, info["fifo_data"])
+                    os.close(fd)
+                except OSError:
+                    pass
+            feeder = threading.Thread(target=feed, daemon=True)
+            feeder.start()
         try:
             p = subprocess.run([exe] + tail, stdout=subprocess.PIPE, stderr=subprocess.PIPE, env=env, cwd=rundir, timeout=120, stdin=subprocess.DEVNULL)
             rc, so, se = p.returncode, p.stdout.decode("utf-8", "replace"), p.stderr.decode("utf-8", "replace")
         except subprocess.TimeoutExpired:
             return ("hang", "did not terminate within 120 s", tail)
+        finally:
+            if feeder is not None:  # unblock a writer nobody read from
+                try:
+                    fd = os.open(info["in"], os.O_RDONLY | os.O_NONBLOCK)
+                    os.close(fd)
+                except OSError:
+                    pass
+                feeder.join(2)
         mode = info["mode"]
         vname = " ".join("%s=%s" % kv for kv in zip(DIMNAMES, vec))
         if rc < 0:
@@ -193,6 +225,11 @@ def run_vector(exe, reftool, fx, vec, idx, workroot):
             return ("crash:" + kind, "AddressSanitizer: " + kind, tail)
         ok = (rc == 0)
         wf = well_formed(vec)
+        if vec[1] in ("directory", "devnull", "fifo"):
+            # what an operation on a non-regular input should yield is not documented: only (1) applies
+            if (not ok) and not (so.strip() or se.strip()):
+                return ("silent-failure", "non-zero exit without any diagnostic", tail)
+            return (None, "rc=%d non-regular input: crash oracle only" % rc, tail)
         # ---- consistency: exit status 0 <=> the effect is really there
         m = mode
         outp = info["out"] or default_out
